@@ -31,7 +31,7 @@ ASSUMPTIONS = [
 FLOORS = {'quick': {'states': 300, 'transitions': 5000, 'counter:rejected': 1500, 'outcomes': 10}, 'thorough': {'states': 300, 'transitions': 5000, 'counter:rejected': 1500, 'outcomes': 10}}
 
 SEED = (
-    '@charset "utf-8";\n@import "x.css" print;\n@namespace p "u";\n@variables { v: 1; vv: 2 }\n/*c*/\n'
+    '@charset "utf-8";\n@import "x.css" print;\n@namespace q "v";\n@namespace p "u";\n@variables { v: 1; vv: 2 }\n/*c*/\n'
     'a, p|b > c { color: red; top: 1px !important }\n'
     '@media print, tv { d { x: y } }\n'
     '@page :first { margin: 0; @top-left { x: y } }\n'
@@ -128,6 +128,8 @@ def _rules(n):
         'ns': lambda: css.CSSNamespaceRule(namespaceURI='w', prefix='r'), 'pg': lambda: css.CSSPageRule(style='z:w'), 'ff': lambda: css.CSSFontFaceRule(style='font-family:g'),
         'md': lambda: css.CSSMediaRule('tv'), 'cm': lambda: css.CSSComment('/*d*/'), 'mg': lambda: css.MarginRule(margin='@top-right', style='z:w'),
         'stq': lambda: _st_q(), 'bad': lambda: css.CSSStyleRule(),
+        # a namespace rule that takes the URI of one declared rule and the prefix of another (both become obsolete, one is in use)
+        'nspv': lambda: css.CSSNamespaceRule(namespaceURI='v', prefix='p'), 'nsqu': lambda: css.CSSNamespaceRule(namespaceURI='u', prefix='q'),
     }[n]()
 
 
@@ -137,7 +139,7 @@ def _st_q():
     return r
 
 
-RULEKEYS = ['st', 'cs', 'im', 'ns', 'pg', 'ff', 'md', 'cm', 'mg', 'stq', 'bad']
+RULEKEYS = ['st', 'cs', 'im', 'ns', 'pg', 'ff', 'md', 'cm', 'mg', 'stq', 'bad', 'nspv', 'nsqu']
 
 # ---- mutators: target -> list of (mutator name, function(obj, arg), argument menu) ---------------------------------
 MUTATORS = {
